@@ -76,6 +76,11 @@ func (p *Program) Summaries() *Summaries {
 		unknown bool
 	}
 	var edges []callEdge
+	type cbCall struct {
+		fn  *types.Func
+		idx int
+	}
+	var cbCalls []cbCall
 	for _, pkg := range p.All {
 		info := pkg.TypesInfo
 		// composite literals storing named funcs into func-typed fields
@@ -214,10 +219,73 @@ func (p *Program) Summaries() *Summaries {
 					if _, ok := ast.Unparen(x.Fun).(*ast.FuncLit); ok {
 						return true // immediately-invoked literal: body is part of this function
 					}
+					if id, ok := ast.Unparen(x.Fun).(*ast.Ident); ok {
+						if v, ok := info.Uses[id].(*types.Var); ok {
+							// a local closure (v := func(){...}; v()): its body is part of this function
+							if localClosure(info, fd, v) {
+								return true
+							}
+							// a callback parameter: the effect is that of whatever the callers pass (resolved below)
+							if idx := paramIndex(info, fd, v); idx >= 0 {
+								cbCalls = append(cbCalls, cbCall{fn: fn, idx: idx})
+								return true
+							}
+						}
+					}
 					edges = append(edges, callEdge{from: fn, unknown: true})
 				}
 				return true
 			})
+		}
+	}
+	// callback parameters: every call site passes a function literal (whose body already belongs to the caller) or a
+	// named module function (an ordinary call edge from the caller); anything else keeps the call unknown
+	for _, cb := range cbCalls {
+		known := true
+		sites := 0
+		for _, pkg := range p.All {
+			info := pkg.TypesInfo
+			for _, fd := range AllFuncs(pkg) {
+				caller := FuncObj(pkg, fd)
+				ast.Inspect(fd.Body, func(n ast.Node) bool {
+					switch x := n.(type) {
+					case *ast.CallExpr:
+						if c := Callee(info, x); c != nil && (c == cb.fn || c.Origin() == cb.fn) {
+							sites++
+							if cb.idx >= len(x.Args) {
+								known = false
+								return true
+							}
+							switch a := ast.Unparen(x.Args[cb.idx]).(type) {
+							case *ast.FuncLit:
+							default:
+								if f, ok := objOf(info, a).(*types.Func); ok {
+									edges = append(edges, callEdge{from: caller, callee: f})
+								} else if v, ok := objOf(info, a).(*types.Var); ok && localClosure(info, fd, v) {
+								} else {
+									known = false
+								}
+							}
+						}
+					case *ast.Ident:
+						// the function used as a value somewhere (not called): callers unknown
+						if info.Uses[x] == types.Object(cb.fn) {
+							if call, ok := p.Parent(x).(*ast.CallExpr); !ok || ast.Unparen(call.Fun) != ast.Expr(x) {
+								if sel, ok := p.Parent(x).(*ast.SelectorExpr); ok {
+									if call2, ok := p.Parent(sel).(*ast.CallExpr); ok && ast.Unparen(call2.Fun) == ast.Expr(sel) {
+										return true
+									}
+								}
+								known = false
+							}
+						}
+					}
+					return true
+				})
+			}
+		}
+		if !known {
+			edges = append(edges, callEdge{from: cb.fn, unknown: true})
 		}
 	}
 	// transitive closure of reads
@@ -332,4 +400,53 @@ func (s *Summaries) ReadsHeap(fn *types.Func) bool {
 		return s.readsHeap[fn.Origin()]
 	}
 	return false // non-module function: operates on its arguments only (trusted)
+}
+
+// localClosure: v is a local variable of fd whose only assignment is a function literal.
+func localClosure(info *types.Info, fd *ast.FuncDecl, v *types.Var) bool {
+	if v.Pos() < fd.Pos() || v.Pos() >= fd.End() {
+		return false
+	}
+	n, lit := 0, false
+	ast.Inspect(fd.Body, func(x ast.Node) bool {
+		switch a := x.(type) {
+		case *ast.AssignStmt:
+			for i, l := range a.Lhs {
+				if objOf(info, l) == types.Object(v) {
+					n++
+					if len(a.Lhs) == len(a.Rhs) {
+						_, lit = ast.Unparen(a.Rhs[i]).(*ast.FuncLit)
+					}
+				}
+			}
+		case *ast.ValueSpec:
+			for i, id := range a.Names {
+				if info.Defs[id] == types.Object(v) {
+					n++
+					if len(a.Values) == len(a.Names) {
+						_, lit = ast.Unparen(a.Values[i]).(*ast.FuncLit)
+					}
+				}
+			}
+		}
+		return true
+	})
+	return n == 1 && lit
+}
+
+// paramIndex: the position of v among fd's parameters, or -1.
+func paramIndex(info *types.Info, fd *ast.FuncDecl, v *types.Var) int {
+	i := 0
+	for _, f := range fd.Type.Params.List {
+		for _, n := range f.Names {
+			if info.Defs[n] == types.Object(v) {
+				return i
+			}
+			i++
+		}
+		if len(f.Names) == 0 {
+			i++
+		}
+	}
+	return -1
 }
